@@ -259,6 +259,7 @@ type group struct {
 	shares   [][][]byte // [msg][member] serialized signature share
 	expect   [][]byte   // [msg] Sign(sum of dealer secrets, m)
 	geOrder  int
+	zeroRes  int // members whose id is 0 mod the order (id == order)
 	setupBad []result
 }
 
@@ -320,6 +321,11 @@ func setup(n, seed int, idkind string) *group {
 			id = idFromBig(new(big.Int).SetInt64(int64(i + 1)))
 		case "big":
 			id = idFromBig(bigs[i])
+			// exactly one member has id == group order (a valid non-zero 32-byte id that is 0 mod
+			// the order); its position in the member list differs between the seed sets
+			if (seed%2 == 0 && i == n-1) || (seed%2 == 1 && i == n/2) {
+				id = idFromBig(order)
+			}
 		default:
 			panic("id kind")
 		}
@@ -329,11 +335,14 @@ func setup(n, seed int, idkind string) *group {
 			g.geOrder++
 		}
 	}
-	// the statement's setting: ids are non-zero and pairwise incongruent mod the group order
+	// the statement's setting: ids are non-zero (the node rejects the zero id) and pairwise incongruent mod the group order
 	for i := 0; i < n; i++ {
 		ri := new(big.Int).Mod(g.ids[i].GetBigInt(), order)
+		if g.ids[i].GetBigInt().Sign() == 0 {
+			panic("harness: zero id")
+		}
 		if ri.Sign() == 0 {
-			panic("harness: id = 0 mod order")
+			g.zeroRes++
 		}
 		for j := 0; j < i; j++ {
 			if ri.Cmp(new(big.Int).Mod(g.ids[j].GetBigInt(), order)) == 0 {
@@ -909,7 +918,7 @@ func run(c *fw.Ctx) {
 		idkind  string
 	}
 	cache := map[cfgT]*group{}
-	var groups, geOrder int64
+	var groups, geOrder, zeroRes int64
 	phases := 1
 	if tp.supBound > 1 || tp.supRev {
 		phases = 2
@@ -931,6 +940,7 @@ func run(c *fw.Ctx) {
 						cache[cfgT{n, seed, idkind}] = g
 						groups++
 						geOrder += int64(g.geOrder)
+						zeroRes += int64(g.zeroRes)
 						for _, r := range g.setupBad {
 							k := g.kase("dkg", 0)
 							k.Ord = idrev(n)[0]
@@ -1068,10 +1078,11 @@ func run(c *fw.Ctx) {
 	}
 	c.Note("groups_per_worker", groups)
 	c.Note("member_ids_ge_group_order_per_worker", geOrder)
+	c.Note("member_ids_equal_group_order_per_worker", zeroRes)
 	c.Note("max_choice_points_per_execution", maxPoints)
 	c.Note("group_sizes", tp.ns)
 	c.Note("superset_deviation_bound", tp.supBound)
-	c.Note("excluded", "member ids that are 0 or pairwise congruent modulo the group order are outside the statement's setting (no Shamir scheme can interpolate them) and are not generated")
+	c.Note("excluded", "the literal zero id (rejected by the node) and member ids that are pairwise congruent modulo the group order are outside the statement's setting (no Shamir scheme can interpolate them) and are not generated; id == group order (0 mod order, a valid id) IS included: one member of every 'big' group")
 	c.Note("map_bound", "maps with <= 8 entries: every distinct iteration order Go can produce (all occupied start slots); maps with 9..10 entries (n=9,10 supersets / DKG pools): all 16 start positions, but the bucket assignment depends on the per-map hash seed, so those orders are enumerated without being reproducible")
 }
 
@@ -1125,7 +1136,7 @@ func main() {
 			"crypto/rand.Reader is replaced by a harness reader only while RecoverGroupSignature draws its k-selection, so that the selection is enumerated instead of sampled; base.Rand is used to predict (steer) the selection, never as oracle",
 			"oracle uses the repository's curve arithmetic only through identities: (sum a_j)*G2 = sum(a_j*G2), Sign(sum of dealer secrets, m) is the unique signature every threshold subset must give; scalar sums are recomputed with math/big",
 			"model.Param initialised as logical.InitConsensus does (dev: minimum group size 3); threshold = model.Param.GetGroupK(n) as derived by the node",
-			"ids = 0 or congruent modulo the group order are outside the statement's setting",
+			"the zero id and ids congruent to each other modulo the group order are outside the statement's setting; id == group order is inside it",
 		},
 		Run: run, Replay: replay,
 		Budget: func(tier string) time.Duration {
